@@ -191,6 +191,19 @@ Theorem C11_status_total : forall kec cfg reg amount s w,
 Proof. exact register_total. Qed.
 Print Assumptions C11_status_total.
 
+(* What the real client's monitor can hand to a receipt waiter (pkg/evmclient/txmonitor.go: the
+   three deliveries in [check], source text from gen/Generated.v): a receipt it obtained, the
+   cancellation error, or the receipt object it decoded into.  A change of these sites breaks
+   this obligation and sends the reader back to the argument that a nil receipt without error
+   cannot reach the registry (props/C11.json, level_note); the nil-guards around the sites are
+   not visible to the extractor. *)
+Theorem C11_monitor_deliveries :
+  arg_of 2 Generated.c11_monitor_notify_args =
+  [bos "Result{receipt, nil}"; bos "Result{nil, ErrTxnCancelled}";
+   bos "Result{result.Result.(" ++ bos "*types.Receipt), nil}"].
+Proof. exact monitor_deliveries. Qed.
+Print Assumptions C11_monitor_deliveries.
+
 (* Hence, for every answer the client can give: anything but a mined transaction with status 1
    is reported as an error. *)
 Theorem C11_status_errors_all : forall kec cfg reg amount s w,
@@ -249,6 +262,21 @@ Theorem C11_rpc_refusals : forall kec cfg reg owner valid parsed s w a,
                  snd (svc_register kec cfg reg owner true (Some amt) s w a) = SvcInternal).
 Proof. exact svc_register_refusals. Qed.
 Print Assumptions C11_rpc_refusals.
+
+(* ANCHORED part of statelessness: the struct types of the two registry objects (source text,
+   gen/Generated.v) have exactly the fields ABI, contract address, client, logger.  A cached
+   minimum, a prepared request, a selector template or a call-coalescing group kept in the object
+   is a further field and breaks this obligation.  (Package-level state is not seen by it; the
+   session / concurrent classes remain the test for that.) *)
+Theorem C11_objects_have_no_other_state :
+  Generated.c11_prov_struct =
+    [bos "registryABI abi.ABI"; bos "registryContractAddr common.Address";
+     bos "client evmclient.Interface"; bos "logger " ++ bos "*slog.Logger"] /\
+  Generated.c11_bid_struct =
+    [bos "bidderRegistryABI abi.ABI"; bos "bidderRegistryContractAddr common.Address";
+     bos "client evmclient.Interface"; bos "logger " ++ bos "*slog.Logger"].
+Proof. exact registry_objects_have_no_other_state. Qed.
+Print Assumptions C11_objects_have_no_other_state.
 
 (* DEFINITIONAL -- read this before the next four theorems.  [session] is defined as
    [map run_request]: the model has no state to carry from one operation to the next, so
@@ -329,16 +357,35 @@ Theorem C11_checker_reflects_session : forall c steps st,
 Proof. exact checker_reflects_session. Qed.
 Print Assumptions C11_checker_reflects_session.
 
-(* for a single check ([violation1] is [violation] on a single operation) a yes needs both
-   values read through the wanted requests, decoded, and minimum <= amount; *)
+(* for a single check ([violation1] is [violation] on a single operation) a yes passes only if,
+   among the read requests recorded, request number i is exactly the wanted minimum request
+   ([want_read]: to the registry, no value, no gas field, calldata = selector of the minimum
+   method) and the client's answer number i was bytes that decode to m; request number j is
+   exactly the wanted amount request for the account asked about and answer number j was bytes
+   that decode to s; and m <= s.  ([calls] lists the read requests of a trace in order.) *)
 Theorem C11_checker_reflects_check : forall c addr a1 a2,
   op c = OpCheck addr a1 a2 -> violation1 c = None -> res c = ObsBool true ->
-  exists m s,
-    value_read c [a1; a2] (want_read c (spec_min (kind c)) []) = Some m /\
-    value_read c [a1; a2] (want_read c (spec_stake (kind c)) [VAddress addr]) = Some s /\
+  exists i j bm bs m s,
+    nth_error (calls (trace c)) i = Some (want_read c (spec_min (kind c)) []) /\
+    nth i [a1; a2] CErr = CBytes bm /\ decode_uint256 bm = Some m /\
+    nth_error (calls (trace c)) j = Some (want_read c (spec_stake (kind c)) [VAddress addr]) /\
+    nth j [a1; a2] CErr = CBytes bs /\ decode_uint256 bs = Some s /\
     m <= s.
-Proof. exact checker_reflects_check. Qed.
+Proof. exact checker_reflects_check_property. Qed.
 Print Assumptions C11_checker_reflects_check.
+
+(* When the recorded reads are exactly the two wanted ones in order (what the code does,
+   C11_reads), passing the checker with a yes is the right-hand side of C11_fail_closed. *)
+Theorem C11_checker_reflects_fail_closed : forall c addr a1 a2,
+  op c = OpCheck addr a1 a2 -> violation1 c = None -> res c = ObsBool true ->
+  calls (trace c) = [want_read c (spec_min (kind c)) [];
+                     want_read c (spec_stake (kind c)) [VAddress addr]] ->
+  exists m s,
+    (exists bm bs, a1 = CBytes bm /\ a2 = CBytes bs /\
+                   decode_uint256 bm = Some m /\ decode_uint256 bs = Some s) /\
+    m <= s.
+Proof. exact checker_reflects_check_two_reads. Qed.
+Print Assumptions C11_checker_reflects_fail_closed.
 
 (* a stake / prepay makes at most one Send, the wanted one, and a success (result code 0)
    needs the hash returned by the Send to be waited for afterwards and status 1. *)
